@@ -183,7 +183,9 @@ var respFaults = []string{"{{ 1 / zero }}\n", "{{ MISSING_IDENT_SENTINEL }}\n", 
 	"{{ tt = 0 }}@each(r in rows)PAGE-SENTINEL-inner@if(r > 1){{ tt = \"many\" }}@end@end\n", "{{ tt = 0 }}@if(true)@if(true)@if(true){{ tt = 1.5 }}@end@end@end\n",
 	"{{ tt = \"s\" }}@each(r in rows)@for(k = 0; k < 1; k++)@if(r == 3)@each(q in [1]){{ tt = [1] }}@end@end@end@end\n", "{{ tt = [1] }}@if(zero)x@else@if(zero)y@else{{ tt = {a: 1} }}@end@end\n",
 	// the page fails in a later pass of a loop, after the loop has produced output
-	"@each(r in rows)PAGE-SENTINEL-inner {{ 6 / (2 - r) }}@end\n"}
+	"@each(r in rows)PAGE-SENTINEL-inner {{ 6 / (2 - r) }}@end\n",
+	// a faulty count or index on a receiver that is empty (round 16): the fault is the argument's, whatever the receiver holds
+	"{{ \"\".repeat(-1) }}\n", "{{ \"\".repeat(zero - 3) }}\n", "{{ e = \"\" }}PAGE-SENTINEL-mid{{ e.repeat(0 - 1) }}\n", "{{ rows.slice(9).join(\"\").repeat(-2) }}\n"}
 
 // the last two places render a name that is not a page
 var firstNamePlace = len(respPlaces) - 2
